@@ -251,4 +251,150 @@ example : validateArgs (fun a e => a == e || (e == "Named" && a == "Dog"))
 example : validateArgs (fun a e => a == e) [⟨none, "int"⟩, ⟨some "b", "str"⟩, ⟨some "b", "int"⟩]
     [("a", "int"), ("b", "int")] 0 = [] := by decide
 
+/-! ### Arity -/
+
+theorem consumed_positional (args : List CArg) (h : ∀ a ∈ args, a.name = none) (ps : List (String × String)) (k : Nat) :
+    consumedPositionals args ps k = min (k + ps.length) (max k args.length) := by
+  induction ps generalizing k with
+  | nil => simp [consumedPositionals]; omega
+  | cons p ps ih =>
+    obtain ⟨pn, pt⟩ := p
+    simp only [consumedPositionals, findNamed_none pn args h 0]
+    rw [positionals_all args h 0 k]
+    by_cases hk : k < args.length
+    · simp only [List.getElem?_eq_getElem hk, Option.map_some]
+      rw [ih]; simp; omega
+    · simp only [List.getElem?_eq_none (Nat.le_of_not_lt hk), Option.map_none]
+      rw [ih]; simp; omega
+
+/-- MAIN (arity, too many): a call with more positional arguments than parameters is reported, on the first
+argument no parameter takes. -/
+theorem surplus_argument_reported (args : List CArg) (ps : List (String × String))
+    (h : ∀ a ∈ args, a.name = none) (hlen : ps.length < args.length) :
+    ps.length ∈ surplusArgs args ps := by
+  unfold surplusArgs
+  apply List.mem_append_left
+  have hc : consumedPositionals args ps 0 = ps.length := by
+    rw [consumed_positional args h]; simp; omega
+  rw [hc, positionals_all args h 0 ps.length]
+  simp [hlen]
+
+/-- A keyword that names no parameter is reported on that argument. -/
+theorem unknown_keyword_reported (args : List CArg) (ps : List (String × String)) (i : Nat) (hi : i < args.length)
+    (n : String) (hn : (args[i]).name = some n) (hnot : n ∉ ps.map (·.1)) : i ∈ surplusArgs args ps := by
+  unfold surplusArgs
+  apply List.mem_append_right
+  apply List.mem_filter.2
+  refine ⟨List.mem_range.2 hi, ?_⟩
+  have hc : (ps.map (·.1)).contains n = false := by
+    cases hcc : (ps.map (·.1)).contains n with
+    | false => rfl
+    | true => exact absurd (List.contains_iff_mem.1 hcc) hnot
+  simp only [List.getElem?_eq_getElem hi, Option.bind_some, hn, hc, Bool.not_false]
+
+theorem missing_positional_aux (args : List CArg) (h : ∀ a ∈ args, a.name = none) (defaults : List String)
+    (ps : List (String × String)) (left : Nat) (j : Nat) (hj : j < ps.length) (hleft : left ≤ j)
+    (hd : (ps[j]).1 ∉ defaults) : (ps[j]).1 ∈ missingParams args defaults ps left := by
+  induction ps generalizing left j with
+  | nil => simp at hj
+  | cons p ps ih =>
+    obtain ⟨pn, pt⟩ := p
+    have hany : args.any (fun a => a.name == some pn) = false := by
+      rw [List.any_eq_false]; intro a ha; simp [h a ha]
+    simp only [missingParams, hany, Bool.false_eq_true, if_false]
+    cases j with
+    | zero =>
+      have hl : left = 0 := by omega
+      subst hl
+      have hdc : defaults.contains pn = false := by
+        cases hc : defaults.contains pn with
+        | false => rfl
+        | true => exact absurd (List.contains_iff_mem.1 hc) (by simpa using hd)
+      simp only [Nat.lt_irrefl, if_false, hdc, Bool.false_eq_true, List.getElem_cons_zero]
+      exact List.mem_append_left _ (List.mem_singleton.2 rfl)
+    | succ j =>
+      have hj' : j < ps.length := by simpa using hj
+      by_cases hl : left > 0
+      · simp only [hl, if_true]
+        exact ih (left - 1) j hj' (by omega) (by simpa using hd)
+      · simp only [hl, if_false]
+        apply List.mem_append_right
+        exact ih left j hj' (by omega) (by simpa using hd)
+
+/-- MAIN (arity, too few): in a positional call, every parameter beyond the arguments that has no default value is
+reported missing. -/
+theorem missing_argument_reported (args : List CArg) (h : ∀ a ∈ args, a.name = none) (defaults : List String)
+    (ps : List (String × String)) (j : Nat) (hj : j < ps.length) (hbeyond : args.length ≤ j)
+    (hd : (ps[j]).1 ∉ defaults) : (ps[j]).1 ∈ missingParams args defaults ps (positionalCount args) := by
+  apply missing_positional_aux args h defaults ps _ j hj _ hd
+  unfold positionalCount
+  exact Nat.le_trans (List.length_filter_le _ _) hbeyond
+
+example : surplusArgs [⟨none, "int"⟩, ⟨none, "int"⟩] [("v", "int")] = [1] := by decide
+example : surplusArgs [⟨none, "int"⟩, ⟨some "nope", "int"⟩] [("v", "int")] = [1] := by decide
+example : missingParams [⟨none, "int"⟩] ["c"] [("a", "int"), ("b", "int"), ("c", "int")] 1 = ["b"] := by decide
+
+/-! ### Trait adoption -/
+
+/-- MAIN (adoption, methods): a required method (no default body) that the adopter does not have is reported. -/
+theorem missing_required_method_reported (okTy okSig : String → String → Bool) (t : TraitSpec) (a : Adopter)
+    (m sig : String) (hm : (m, false, sig) ∈ t.methods) (hno : lookupS m a.methods = none) :
+    .missingMethod m ∈ conformance okTy okSig t a := by
+  unfold conformance
+  apply List.mem_append_right
+  apply List.mem_flatMap.2
+  exact ⟨(m, false, sig), hm, by simp [hno]⟩
+
+/-- A required method implemented with another signature is reported. -/
+theorem wrong_signature_reported (okTy okSig : String → String → Bool) (t : TraitSpec) (a : Adopter)
+    (m sig s : String) (hm : (m, false, sig) ∈ t.methods) (hs : lookupS m a.methods = some s)
+    (hbad : okSig sig s = false) : .methodSig m ∈ conformance okTy okSig t a := by
+  unfold conformance
+  apply List.mem_append_right
+  apply List.mem_flatMap.2
+  exact ⟨(m, false, sig), hm, by simp [hs, hbad]⟩
+
+/-- MAIN (adoption, fields): a `@requires` field the adopter lacks, or has with an incompatible type, is reported. -/
+theorem missing_required_field_reported (okTy okSig : String → String → Bool) (t : TraitSpec) (a : Adopter)
+    (f ty : String) (hf : (f, ty) ∈ t.requires) (hno : lookupS f a.fields = none) :
+    .missingField f ∈ conformance okTy okSig t a := by
+  unfold conformance
+  apply List.mem_append_left
+  apply List.mem_flatMap.2
+  exact ⟨(f, ty), hf, by simp [hno]⟩
+
+theorem wrong_field_type_reported (okTy okSig : String → String → Bool) (t : TraitSpec) (a : Adopter)
+    (f ty fty : String) (hf : (f, ty) ∈ t.requires) (hs : lookupS f a.fields = some fty)
+    (hbad : okTy fty ty = false) : .fieldType f ∈ conformance okTy okSig t a := by
+  unfold conformance
+  apply List.mem_append_left
+  apply List.mem_flatMap.2
+  exact ⟨(f, ty), hf, by simp [hs, hbad]⟩
+
+/-- No false alarm: an adopter with every required field (compatible type) and every required method
+(compatible signature) is accepted; default methods need not be re-declared. -/
+theorem conforming_adopter_accepted (okTy okSig : String → String → Bool) (t : TraitSpec) (a : Adopter)
+    (hf : ∀ f ty, (f, ty) ∈ t.requires → ∃ fty, lookupS f a.fields = some fty ∧ okTy fty ty = true)
+    (hm : ∀ m sig, (m, false, sig) ∈ t.methods → ∃ s, lookupS m a.methods = some s ∧ okSig sig s = true) :
+    conformance okTy okSig t a = [] := by
+  unfold conformance
+  rw [List.append_eq_nil_iff]
+  constructor
+  · apply List.flatMap_eq_nil_iff.2
+    intro x hx
+    obtain ⟨f, ty⟩ := x
+    obtain ⟨fty, h1, h2⟩ := hf f ty hx
+    simp [h1, h2]
+  · apply List.flatMap_eq_nil_iff.2
+    intro x hx
+    obtain ⟨m, hasBody, sig⟩ := x
+    cases hasBody with
+    | true => simp
+    | false =>
+      obtain ⟨s, h1, h2⟩ := hm m sig hx
+      simp [h1, h2]
+
+example : conformance (· == ·) (· == ·) ⟨[("name", "str")], [("area", false, "()->int"), ("describe", true, "()->str")]⟩
+    ⟨[("w", "int")], [("describe", "()->str")]⟩ = [.missingField "name", .missingMethod "area"] := by decide
+
 end Incan.Checker
